@@ -12,7 +12,7 @@
    session, what is stated of the final state holds after every operation. *)
 From Coq Require Import ZArith List Bool.
 Import ListNotations.
-From Urwid Require Import PyBase PyList vterm_csi_gen VTerm VT100Ref VTermRefine VTermListFacts VTermProofs VTermParse VTermSim.
+From Urwid Require Import PyBase PyList vterm_csi_gen VTerm VT100Ref VTermRefine VTermListFacts VTermProofs VTermParse VTermSim VTermSim2.
 Open Scope Z_scope.
 
 (* --- clause 1: never raises; the grid is exactly height x width (so is the view handed to the renderer,
@@ -88,11 +88,13 @@ Print Assumptions scrolled_back_view.
 (* --- clause 2: equality with the reference VT100 (Model/VT100Ref.v, written from the VT100 behaviour, not from
        vterm.py) on the subset of the property: printable text with autowrap (incl. the last-column flag),
        CR LF BS HT, CUP CUU CUD CUF CUB, EL ED, ICH DCH IL DL, DECSTBM, RI, the classic SGR renditions and
-       colours, DSR - any command list, any mixture, any terminal size, any parameters below 2^4000 (int()
+       colours, DSR, and the character sets (SO / SI, ESC ( 0 / ESC ( B / ESC ) 0 / ESC ) B: every cell carries the
+       set - ASCII or DEC special graphics - it was written in) - any command list, any mixture, any terminal size, any parameters below 2^4000 (int()
        refuses more than 4300 digits; the emulator then falls back to the default, by design).
        [cmd_ok] bounds the parameter domains (printable 0x20-0x7E, EL/ED mode <= 2, classic SGR values, DSR 5/6);
        [unambiguous] stops before the points on which terminals of the VT100 family themselves differ (LF / RI /
-       HT with the last-column flag set, CUU / CUD across a margin of a partial scrolling region).
+       HT with the last-column flag set, CUU / CUD across a margin of a partial scrolling region, SO before G1 was ever
+       designated).
        After feeding the byte encoding of the commands the emulator's screen contents (characters and renditions),
        cursor and scrolling region equal the reference's ([agrees]).  The feed may be chunked in any way
        (chunking_irrelevant).  Proof: the parser reads the decimal encoding back exactly (Proofs/VTermParse.v),
@@ -170,6 +172,10 @@ Example refines_one_column : agree_on 1 3 (text [97; 98; 99; 100]) = true.
 Proof. vm_compute. reflexivity. Qed.
 Example refines_wrap_below_region : agree_on 2 3 ([CStbm 1 2; CCup 3 1] ++ text [120; 121; 122]) = true.
 Proof. vm_compute. reflexivity. Qed.
+Example refines_line_drawing :
+  agree_on 6 2 ([CDesig 1 48; CCh 120; CSo; CCh 113; CCh 113; CSi; CCh 121; CDesig 0 48; CCh 106; CDesig 0 66; CSo; CDesig 1 66;
+                 CCh 107; CEl 1; CSi]) = true.
+Proof. vm_compute. reflexivity. Qed.
 Example refines_mixed :
   agree_on 5 3 ([CSgr [1; 31]; CCh 97; CSgr [0; 44]; CCh 98; CCup 9999 9999; CCh 99; CCh 100; CEl 1; CRi; CRi; CRi;
                  CIch 2; CDch 1; CStbm 2 3; CCh 101; CLf; CLf; CLf; CEd 0; CCub 9; CCuf 2; CBs; CCh 102]) = true.
@@ -183,8 +189,9 @@ Theorem constrain_coords_in_range :
   0 <= snd (constrain_coords_gen width height cs sr_start sr_end x y ign) < height.
 Proof.
   intros wd ht cs a b x y ign Hw Hh Hr.
-  exact (constrain_range (mkSt wd ht [] (0, 0) None false [] 0 None [] [] false 0 None charset_new None None false a b []
-                                (mkModes false false false false false cs true true false 1) [] 0) x y ign Hw Hh Hr).
+  destruct (constrain_range (mkSt wd ht [] (0, 0) None false [] 0 None [] [] false 0 None charset_new None None false a b []
+                                (mkModes false false false false false cs true true false 1) [] 0) x y ign Hw Hh Hr) as (A & B & _).
+  split; assumption.
 Qed.
 Print Assumptions constrain_coords_in_range.
 
